@@ -29,8 +29,10 @@ def main():
     patch = os.path.join(out, 'patch.diff')
     assert os.path.exists(patch), patch
     env = dict(os.environ, PYTHONPATH=wt)
-    # make sure the worktree holds exactly the patch
+    # make sure the worktree holds exactly the patch, on top of /repo's current HEAD
     sh('git -C %s checkout -- trashcli' % wt)
+    head = sh('git -C /repo rev-parse HEAD').stdout.strip()
+    sh('git -C %s checkout -q --detach %s' % (wt, head))
     r = sh('git -C %s apply %s' % (wt, patch))
     assert r.returncode == 0, r.stdout
     suite = sh('%s/tools/baseline.py %s' % (VERIF, wt))
